@@ -76,7 +76,20 @@ impl<'a, P: ?Sized + PathImpl> PathMutImpl<'a, P> {
 		}
 	}
 
+	/// Checks if the path is part of a URI/IRI buffer where it directly
+	/// follows an authority (in which case it is either empty or absolute).
+	fn after_authority(&self) -> bool {
+		self.start > 0 && self.follows_authority
+	}
+
 	pub fn push(&mut self, segment: &P::Segment) {
+		if self.after_authority() && self.start == self.end {
+			// VALIDITY: When an authority is present, the path must be
+			//           absolute as soon as it has a segment.
+			replace(self.buffer, self.end..self.end, b"/");
+			self.end += 1;
+		}
+
 		// Disambiguate if the path is empty and one of the following is true:
 		// - `segment` looks like a scheme and path is a the start.
 		// - `segment` is empty, path is absolute and following an authority.
@@ -108,7 +121,7 @@ impl<'a, P: ?Sized + PathImpl> PathMutImpl<'a, P> {
 			allocate_range(self.buffer, start..self.end, len);
 
 			self.buffer[start] = b'/';
-			self.end += len - start_offset;
+			self.end = start + len;
 			let segment_offset = start + 1;
 			self.buffer[segment_offset..self.end].copy_from_slice(segment.as_bytes());
 		}
@@ -123,7 +136,7 @@ impl<'a, P: ?Sized + PathImpl> PathMutImpl<'a, P> {
 	pub fn pop(&mut self) -> bool {
 		let is_empty = self.is_empty();
 
-		if (is_empty && self.is_relative())
+		if (is_empty && self.is_relative() && !self.after_authority())
 			|| self.last().map(SegmentImpl::as_bytes) == Some(PARENT_SEGMENT)
 		{
 			self.push(<P::Segment as SegmentImpl>::PARENT);
@@ -192,17 +205,24 @@ impl<'a, P: ?Sized + PathImpl> PathMutImpl<'a, P> {
 
 	#[inline]
 	pub fn normalize(&mut self) {
+		// Copy the normalized segments, then push them back one by one: `push`
+		// knows how to keep the path unambiguous where it stands (a first
+		// segment that is empty or contains a `:` must not turn into an
+		// authority, a scheme, or change the path from relative to absolute).
 		let mut buffer: SmallVec<[u8; NORMALIZE_IN_PLACE_BUFFER_LEN]> = SmallVec::new();
-		for (i, segment) in self.normalized_segments().enumerate() {
-			if i > 0 {
-				buffer.push(b'/')
-			}
-
-			buffer.extend_from_slice(segment.as_bytes())
+		let mut ends: SmallVec<[usize; 16]> = SmallVec::new();
+		for segment in self.normalized_segments() {
+			buffer.extend_from_slice(segment.as_bytes());
+			ends.push(buffer.len())
 		}
 
-		let start = self.first_segment_offset();
-		replace(self.buffer, start..self.end, &buffer);
-		self.end = start + buffer.len();
+		self.clear();
+
+		let mut offset = 0;
+		for end in ends {
+			let segment = unsafe { P::Segment::new_unchecked(&buffer[offset..end]) };
+			self.push(segment);
+			offset = end
+		}
 	}
 }
